@@ -78,6 +78,11 @@ def gen_cases(rng, tier):
         combos = rng.sample(combos, 2000)
     for k in range(0, len(combos), 2000):
         cases.append({'kind': 'pyslice', 'combos': combos[k:k + 2000]})
+    # coordinates within rounding distance of (but not on) the cell faces, off the dyadic grid: decided by the oracle alone
+    for _ in range({'quick': 6, 'thorough': 60, 'search': 4}[tier]):
+        T, na = rng.randint(3, 6), rng.randint(1, 3)
+        near = [1 - 5e-6, 1 - 1e-7, 2 - 3e-6, -1e-6, 1e-6, 0.5, 1 - 2e-5, -1 + 4e-6, 0.999999, 3e-9]
+        cases.append({'kind': 'nearface', 'coords': [[[rng.choice(near) if rng.random() < 0.6 else rng.random() for _k in range(3)] for _a in range(na)] for _t in range(T)]})
     return cases
 
 
@@ -90,7 +95,28 @@ def _arr(a):
     return r.astype(np.int64).reshape(r.shape[0], -1).tolist()
 
 
+def _impl_nearface(case):
+    raw = np.array(case['coords'], dtype=float)
+    want = np.mod(raw, 1.0)
+    want[want == 1.0] = 0.0
+    t = synth.make_traj([[5, 0, 0], [1, 6, 0], [0, 1, 7]], ['Li'] * raw.shape[1], raw, mode='asis')
+
+    def dev(p, w):
+        d = np.abs(np.asarray(p) - w)
+        return float(np.minimum(d, 1 - d).max())
+    devs = {'fresh': dev(t.positions, want)}
+    _ = t.displacements
+    t.distances_from_base_position()
+    devs['after displacement queries'] = dev(t.positions, want)
+    devs['slice'] = dev(t[1:].positions, want[1:])
+    devs['filter'] = dev(t.filter('Li').positions, want)
+    devs['split'] = max(dev(p.positions, want[a:a + len(p)]) for a, p in zip([0, (len(raw) - 1) // 2], t.split(2))) if len(raw) >= 3 else 0.0
+    return {'nearface_dev': devs}
+
+
 def impl(case):
+    if case['kind'] == 'nearface':
+        return _impl_nearface(case)
     if case['kind'] == 'pyslice':
         res = []
         for a, b, c, L in case['combos']:
@@ -225,6 +251,11 @@ def impl(case):
 
 
 def oracle(case, out):
+    if case['kind'] == 'nearface':
+        if 'nearface_dev' not in out:
+            return [('c15/harness-error', f"{out.get('error')}: {out.get('msg')} {out.get('tb', '')[-400:]}")]
+        bad = {k: v for k, v in out['nearface_dev'].items() if v > 1e-12}
+        return [('ops/positions-changed', f'coordinates next to a cell face: positions differ from the input modulo 1 by {bad} (fractional units)')] if bad else []
     if case['kind'] == 'pyslice':
         return []
     if 'mops' not in out:
@@ -286,6 +317,8 @@ def _oz(v):
 
 
 def coq_term(case, out):
+    if case['kind'] == 'nearface':
+        return None
     if case['kind'] == 'pyslice':
         sl = clist(f'({_oz(a)}, {_oz(b)}, {_oz(c)}, {nat(L)}, {"None" if r is None else "(Some " + zlist(r) + ")"})'
                    for (a, b, c, L), r in zip(case['combos'], out['res']))
@@ -315,7 +348,7 @@ def coq_term(case, out):
 
 
 def nontrivial(case, out):
-    if case['kind'] == 'pyslice':
+    if case['kind'] in ('pyslice', 'nearface'):
         return True
     ms = out.get('mops', [])
     switches = sum(1 for a, b in zip(ms, ms[1:]) if {a[0], b[0]} & {'QPos'} and {a[0], b[0]} & {'QDisp', 'QCum'})
@@ -323,6 +356,8 @@ def nontrivial(case, out):
 
 
 def classify(case, out):
+    if case['kind'] == 'nearface':
+        return ['coordinates-next-to-cell-faces']
     if case['kind'] == 'pyslice':
         return ['pyslice'] + ['pyslice-combo'] * (len(case['combos']) // 100)
     tags = ['ops', 'start-in-displacement-mode' if case['as_disp'] else 'start-in-position-mode']
@@ -335,6 +370,8 @@ def classify(case, out):
 
 
 def sample(case, out):
+    if case['kind'] == 'nearface':
+        return {'coords': case['coords'][:2], 'deviation': out.get('nearface_dev')}
     if case['kind'] == 'pyslice':
         return {'combos': case['combos'][:5], 'res': out.get('res', [])[:5]}
     return {'species': case['species'], 'as_disp': case['as_disp'], 'ops': out.get('mops', [])[:10]}
